@@ -54,7 +54,14 @@ def all_guards(func: ast.AST, node: ast.AST) -> list[tuple[ast.expr, bool]]:
 
 
 def guard_texts(func: ast.AST, node: ast.AST) -> list[tuple[str, bool]]:
-    return [(ast.unparse(g), pol) for g, pol in all_guards(func, node)]
+    """The guards as written, followed by their signed atoms (see guard_atoms): a rule that
+    looks for one condition finds it however the test was phrased (`if not c: ...` around the
+    node, `if c: return` before it, or `c` as one conjunct of a longer test)."""
+    out = [(ast.unparse(g), pol) for g, pol in all_guards(func, node)]
+    for a in guard_atoms(func, node):
+        if a not in out:
+            out.append(a)
+    return out
 
 
 def guard_atoms(func: ast.AST, node: ast.AST) -> list[tuple[str, bool]]:
